@@ -23,9 +23,10 @@ TRUSTED = [
     "Coq 8.16.1 kernel and vm_compute",
     "harness/c08.py: query text construction from the modifier stack, conversion of rdflib terms "
     "to (kind, content) by class / datatype / lexical form (never by rdflib __eq__/__hash__)",
-    "harness/c08.py expr_eval: exact integer/decimal/string evaluation of the aggregate ARGUMENT expressions "
-    "(-?v, +?v, ?v+k, ?v-k, FLOOR, CEIL, ABS, STRLEN, LCASE, UCASE) per input solution - conformance level: "
-    "expressions are not in the Coq model, their per-solution values enter the case as bindings of derived variables",
+    "harness/c08.py tex_text/cond_text: rendering of the expression trees of the proved fragment into query text",
+    "harness/c08.py expr_eval: exact integer/decimal/string evaluation of the argument expressions that are NOT in the "
+    "Coq model (FLOOR, CEIL, ABS, STRLEN, LCASE, UCASE; also -?v, +?v, ?v+k, ?v-k in that generator mode) per input "
+    "solution - conformance level: their per-solution values enter the case as bindings of derived variables",
     "the base query `SELECT * WHERE {P}` and the query with modifiers see the same solution sequence "
     "of P (same Graph object, same process, no mutation in between)",
     "running the query three times (aggregation stage alone, without slice, complete) gives the same "
@@ -33,11 +34,15 @@ TRUSTED = [
 ]
 ASSUMPTIONS = [
     "terms: blank nodes, IRIs, plain string literals, xsd:integer, xsd:decimal (no language tags, no doubles, "
-    "no other datatypes); sort keys and aggregate arguments are variables; HAVING is one comparison of "
+    "no other datatypes); sort keys are variables; aggregate arguments are variables or expressions over variables, "
+    "constants, unary/binary +/-, comparisons, && || !, IF, binary COALESCE, BOUND (the evaluator eval_t/eval_b is shared "
+    "by model and checker: its agreement with rdflib is tied, its agreement with SPARQL 17 is not claimed here); an unbound "
+    "PLAIN variable is left out by SUM/AVG, an erroneous argument EXPRESSION makes SUM/AVG an error; HAVING is one comparison of "
     "COUNT/SUM/AVG with an integer constant, or of a grouping key with an IRI constant",
     "xsd:decimal division in AVG is General Decimal Arithmetic division at 28 significant digits, "
     "round-half-even (Python's default decimal context); decimal addition is exact (values far below 28 digits)",
-    "in an aggregate query the ORDER BY keys are projected variables or aliases",
+    "in an aggregate query the ORDER BY keys are projected variables, aliases, or aggregates (modelled as unprojected aliases; "
+    "then the final order is judged by model = implementation, the checker judges only the multiset)",
     "HAVING on a grouping key compares it with an IRI constant (= / !=); GROUP BY (e AS ?v) only with e a variable, and "
     "its input sequence is that of { P BIND(e AS ?v) } (SPARQL 18.2.4.1)",
     "promotion suite: float/double VALUES are compared as exact rationals of the Python floats with tolerance 1e-6 "
@@ -50,8 +55,9 @@ ASSUMPTIONS = [
 RULE = ("random graph over a tiny vocabulary with mixed object kinds (bnode, IRI, integer, decimal, string), one of "
         "five base patterns (with OPTIONAL so that variables are unbound in some rows; one that matches nothing), "
         "random stack of DISTINCT, ORDER BY with 1-3 ASC/DESC keys, LIMIT/OFFSET, projection, GROUP BY with 0-2 keys, "
-        "1-3 aggregates out of the seven with/without DISTINCT, HAVING (aggregate or grouping key); 10 %: two aggregates "
-        "of one function over different argument expressions (+ one only in ORDER BY); 8 %: DISTINCT + ORDER BY on all "
+        "1-3 aggregates out of the seven with/without DISTINCT, HAVING (aggregate or grouping key); 8 %: two aggregates "
+        "of one function over different argument expressions (+ one only in ORDER BY); 18 %: aggregates over random "
+        "expression trees of the proved fragment on data where they are errors in some solutions; 7 %: DISTINCT + ORDER BY on all "
         "projected variables over value-equal literals of different datatype/lexical form; distinct by full case content; non-trivial = "
         "at least one modifier and a non-empty input or an aggregate")
 
@@ -150,7 +156,11 @@ def c_agg(a, arg=None):
     k = {"count": "ACount", "sum": "ASum", "avg": "AAvg", "min": "AMin", "max": "AMax", "sample": "ASample"}.get(kind)
     if kind == "concat":
         k = f"(AConcat {cstr(' ' if a.get('sep') is None else a['sep'])})"
-    return "{| a_kind := %s; a_distinct := %s; a_arg := %s |}" % (k, cbool(a["distinct"]), copt(a["arg"], cN))
+    if a.get("tex") is not None:
+        argc = "(Some %s)" % c_tex(a["tex"])
+    else:
+        argc = copt(a["arg"], lambda v: f"(EVar {cN(v)})")
+    return "{| a_kind := %s; a_distinct := %s; a_arg := %s |}" % (k, cbool(a["distinct"]), argc)
 
 
 # ---- aggregate ARGUMENTS that are simple expressions over one variable (conformance level: the value of
@@ -217,12 +227,90 @@ def derived_id(case, a):
     raise KeyError(a)
 
 
+# ---- expression trees as aggregate arguments (PROVED fragment: Model.v texpr / bexpr)
+# t ::= ["var", v] | ["const", term] | ["neg", t] | ["pos", t] | ["add", t, t] | ["sub", t, t]
+#     | ["if", c, t, t] | ["coalesce", t, t]
+# c ::= ["bound", v] | ["cmp", op, t, t] | ["not", c] | ["and", c, c] | ["or", c, c]
+def const_text(j):
+    if j[0] == "Z":
+        return str(j[1]) if j[1] >= 0 else "'%d'^^<%s>" % (j[1], XSD.integer)
+    if j[0] == "D":
+        return "'%s'^^<%s>" % (str.__str__(dec_term(j)), XSD.decimal)
+    if j[0] == "I":
+        return "<%s>" % j[1]
+    return "'%s'" % j[1]
+
+
+def tex_text(t):
+    k = t[0]
+    if k == "var":
+        return f"?v{t[1]}"
+    if k == "const":
+        return const_text(t[1])
+    if k == "neg":
+        return f"(-({tex_text(t[1])}))"
+    if k == "pos":
+        return f"(+({tex_text(t[1])}))"
+    if k in ("add", "sub"):
+        return f"({tex_text(t[1])} {'+' if k == 'add' else '-'} {tex_text(t[2])})"
+    if k == "if":
+        return f"IF({cond_text(t[1])}, {tex_text(t[2])}, {tex_text(t[3])})"
+    if k == "coalesce":
+        return f"COALESCE({tex_text(t[1])}, {tex_text(t[2])})"
+    raise ValueError(t)
+
+
+def cond_text(c):
+    k = c[0]
+    if k == "bound":
+        return f"BOUND(?v{c[1]})"
+    if k == "cmp":
+        return f"({tex_text(c[2])} {c[1]} {tex_text(c[3])})"
+    if k == "not":
+        return f"(!({cond_text(c[1])}))"
+    if k in ("and", "or"):
+        return f"({cond_text(c[1])} {'&&' if k == 'and' else '||'} {cond_text(c[2])})"
+    raise ValueError(c)
+
+
+def c_tex(t):
+    k = t[0]
+    if k == "var":
+        return f"(EVar {cN(t[1])})"
+    if k == "const":
+        return f"(EConst ({c_term(t[1])}))"
+    if k in ("neg", "pos"):
+        return f"({'ENeg' if k == 'neg' else 'EPos'} {c_tex(t[1])})"
+    if k in ("add", "sub"):
+        return f"({'EAdd' if k == 'add' else 'ESub'} {c_tex(t[1])} {c_tex(t[2])})"
+    if k == "if":
+        return f"(EIf {c_cond(t[1])} {c_tex(t[2])} {c_tex(t[3])})"
+    if k == "coalesce":
+        return f"(ECoalesce {c_tex(t[1])} {c_tex(t[2])})"
+    raise ValueError(t)
+
+
+def c_cond(c):
+    k = c[0]
+    if k == "bound":
+        return f"(BBound {cN(c[1])})"
+    if k == "cmp":
+        return f"(BCmp {OPS[c[1]]} {c_tex(c[2])} {c_tex(c[3])})"
+    if k == "not":
+        return f"(BNot {c_cond(c[1])})"
+    if k in ("and", "or"):
+        return f"({'BAnd' if k == 'and' else 'BOr'} {c_cond(c[1])} {c_cond(c[2])})"
+    raise ValueError(c)
+
+
 def agg_text(a):
     fn = {"count": "COUNT", "sum": "SUM", "avg": "AVG", "min": "MIN", "max": "MAX", "sample": "SAMPLE",
           "concat": "GROUP_CONCAT"}[a["kind"]]
     arg = "*" if a["arg"] is None else f"?v{a['arg']}"
     if a.get("expr") is not None:
         arg = expr_text(a["expr"], a["arg"])
+    if a.get("tex") is not None:
+        arg = tex_text(a["tex"])
     d = "DISTINCT " if a["distinct"] else ""
     sep = ""
     if a["kind"] == "concat" and a.get("sep") is not None:
@@ -237,7 +325,7 @@ class C08(Suite):
     obs_ty = "obs"
     corr = ("evaluate.evalAggregateJoin/evalOrderBy/evalProject/evalDistinct/evalSlice, aggregates.Aggregator and "
             "the seven accumulators, evalutils._val, algebra.translate/translateAggregates (through the query text)")
-    quick_n = 900
+    quick_n = 750
     thorough_n = 20000
     timeout_s = 20.0
 
@@ -250,9 +338,11 @@ class C08(Suite):
     # ------------------------------------------------------------ generation
     def gen(self, rng, i):
         r = rng.random()
-        if r < 0.10:
+        if r < 0.08:
             return self.gen_expr(rng)
-        if r < 0.18:
+        if r < 0.26:
+            return self.gen_tex(rng)
+        if r < 0.33:
             return self.gen_ties(rng)
         return self.gen_general(rng)
 
@@ -312,6 +402,69 @@ class C08(Suite):
             case["order"] = [[rng.random() < 0.5, rng.choice([10, 11])]]
         case["aggs"] = aggs
         case["proj"] = proj
+        return case
+
+    def rnd_tex(self, rng, vars_, depth):
+        r = rng.random()
+        if depth == 0 or r < 0.25:
+            if rng.random() < 0.6:
+                return ["var", rng.choice(vars_)]
+            return ["const", rng.choice([["Z", 0], ["Z", 1], ["Z", 2], ["Z", -3], ["D", 15, 1], ["D", -5, 1],
+                                         ["D", 20, 1], ["S", "x"], ["I", E + "a"]])]
+        if r < 0.37:
+            return [rng.choice(["neg", "pos"]), self.rnd_tex(rng, vars_, depth - 1)]
+        if r < 0.60:
+            return [rng.choice(["add", "sub"]), self.rnd_tex(rng, vars_, depth - 1), self.rnd_tex(rng, vars_, depth - 1)]
+        if r < 0.82:
+            return ["if", self.rnd_cond(rng, vars_, depth - 1), self.rnd_tex(rng, vars_, depth - 1),
+                    self.rnd_tex(rng, vars_, depth - 1)]
+        return ["coalesce", self.rnd_tex(rng, vars_, depth - 1), self.rnd_tex(rng, vars_, depth - 1)]
+
+    def rnd_cond(self, rng, vars_, depth):
+        r = rng.random()
+        if r < 0.25:
+            return ["bound", rng.choice(vars_)]
+        if depth == 0 or r < 0.75:
+            return ["cmp", rng.choice(list(OPS)), self.rnd_tex(rng, vars_, 0 if depth == 0 else depth - 1),
+                    self.rnd_tex(rng, vars_, 0)]
+        if r < 0.83:
+            return ["not", self.rnd_cond(rng, vars_, depth - 1)]
+        return [rng.choice(["and", "or"]), self.rnd_cond(rng, vars_, depth - 1), self.rnd_cond(rng, vars_, depth - 1)]
+
+    def gen_tex(self, rng):
+        """aggregates whose ARGUMENT is an expression of the proved fragment (arithmetic, comparisons, IF, COALESCE,
+        BOUND, && || !) over data on which it is an error in some solutions (strings, IRIs, unbound ?v3)"""
+        prof = rng.random()
+        pool = OBJ_NUM if prof < 0.5 else OBJ_MIX
+        objs = rng.sample(pool, min(len(pool), rng.choice([2, 3, 4, 5])))
+        pat = rng.choice([0, 1, 1, 1, 5, 3])
+        case = {"graph": self.gen_graph(rng, objs, 9), "pattern": pat, "group": rng.choice([[], [0], [0], [2]]),
+                "aggs": [], "having": None, "order": [], "proj": None, "distinct": rng.random() < 0.15, "slice": None,
+                "galias": None}
+        vars_ = [v for v in PVARS[pat] if v != 0] * 2 + [0]
+        n = rng.choice([1, 2, 2, 3])
+        same = rng.random() < 0.4
+        kind0, d0 = rng.choice(KINDS), rng.random() < 0.3
+        aggs = []
+        for j in range(n):
+            kind, d = (kind0, d0) if same else (rng.choice(KINDS), rng.random() < 0.3)
+            a = {"kind": kind, "distinct": d, "arg": 2, "tex": self.rnd_tex(rng, vars_, rng.choice([1, 2, 2, 3]))}
+            if kind == "concat":
+                a["sep"] = rng.choice(SEPS)
+            aggs.append([10 + j, a])
+        case["aggs"] = aggs
+        proj = list(case["group"]) + [a[0] for a in aggs]
+        if len(aggs) > 1 and rng.random() < 0.3:
+            hidden = aggs[-1][0]
+            proj.remove(hidden)
+            case["order"] = [[rng.random() < 0.5, hidden]]
+        elif rng.random() < 0.4:
+            case["order"] = [[rng.random() < 0.5, rng.choice(proj)]]
+        case["proj"] = proj
+        if rng.random() < 0.2:
+            ha = {"kind": rng.choice(["count", "sum", "avg"]), "distinct": False, "arg": 2,
+                  "tex": self.rnd_tex(rng, vars_, 2)}
+            case["having"] = {"agg": ha, "op": rng.choice(list(OPS)), "n": rng.choice([0, 1, 2, 3])}
         return case
 
     def gen_ties(self, rng):
@@ -576,6 +729,7 @@ class C08(Suite):
                                            and case["having"]["key"] not in (case["proj"] or [])),
              "group_by_alias": int(bool(case.get("galias"))),
              "agg_arg_expression": int(any(a.get("expr") for _, a in case["aggs"])),
+             "agg_arg_tex": int(any(a.get("tex") for _, a in case["aggs"])),
              "agg_only_in_order_by": int(any(v in [a[0] for a in case["aggs"]] and v not in (case["proj"] or [])
                                              for _, v in case["order"])),
              "distinct_sorted_on_all_columns": int(bool(case["distinct"] and case["proj"] and case["order"]
